@@ -8,7 +8,7 @@ STUBS = []
 BOUNDS = {'quick': 'names: length 0..40 (symbolic), one solver-chosen character (7 allowed classes + 8 forbidden characters) at the first/middle/last position; '
                    'code: a restricted instruction under <= 2 nested wrappers out of 13 (sequence, DIP, IF branches, MAP/LOOP bodies, LAMBDA, LAMBDA_REC, lambda literals pushed directly and nested 1..2 levels inside option/list/map/or/comb literals) '
                    'with solver-chosen siblings before/after at each level',
-          'thorough': 'same with <= 3 nested wrappers'}
+          'thorough': 'same as quick (a third wrapper level is outside the time budget)'}
 OUTSIDE = ['code trees outside the wrapper/sibling grammar', 'names with more than one unusual character']
 ASSUMPTIONS = ['rejection rule exactly as stated by the property (name > 31 chars or char outside [A-Za-z0-9_.%@]; SELF anywhere; TRANSFER_TOKENS/CREATE_CONTRACT/SET_DELEGATE outside LAMBDA/LAMBDA_REC/pushed lambda)']
 
@@ -178,7 +178,7 @@ def conc_name(P, w):
 
 def obligations(tier):
     q = tier == 'quick'
-    depth = 2 if q else 3
+    depth = 2       # a third level multiplies the path tree by ~120 (13 wrappers x 9 sibling pairs): not reachable in the thorough budget
     obs = [Ob('name', 'bvx', sym_name, conc_name, timeout=300, opts={'W': 16},
               bounds='lengths 0,1,2,3,16,30..33,40; one character at the first/middle/last position ranges over all 256 Latin-1 characters, the others are letters', targets=TARGETS)]
     for op in range(len(LEAVES)):
